@@ -12,7 +12,7 @@ type Deref struct {
 	X Expr
 }
 
-func (e *Deref) Type() *Type             { return e.T }
+func (e *Deref) Type() *Type            { return e.T }
 func (e *Deref) src(b *strings.Builder) { e.X.src(b) }
 
 type StructV struct{ F []Val }
@@ -63,7 +63,9 @@ type Outcome struct {
 	Term  string // "ok" | "panic"
 	Panic string
 	Err   string // non-empty: the program left the defined semantics (div by zero, step limit, ...): discard
-	Steps int
+	// FellOff names the non-void function (or "function literal") whose body was left without a return
+	FellOff string
+	Steps   int
 	// dynamic facts for non-triviality rules
 	Calls, LoopIters, StructCopies, RefWrites, Wraps int
 }
@@ -160,6 +162,7 @@ func (in *Interp) call(f *Func, recv Val, args []Val) (Val, bool) {
 		return v, true
 	case sigNone:
 		if f.Ret != nil && f.Ret.K != KVoid {
+			in.out.FellOff = f.Name
 			in.fail("fell off the end of non-void function %s", f.Name)
 		}
 		return nil, false
@@ -664,6 +667,7 @@ func (in *Interp) callClosure(c *ClosV, args []Val) Val {
 		in.fail("bad control flow in closure")
 	}
 	if c.Lit.T.Ret != nil && c.Lit.T.Ret.K != KVoid {
+		in.out.FellOff = "function literal"
 		in.fail("fell off the end of a non-void function literal")
 	}
 	return nil
